@@ -370,6 +370,9 @@ class ScnGen:
                 lo = 0
             if ci == 0:
                 nosend0 = nosend
+            if len(reqs) >= 2 and rng.random() < 0.08:
+                other = "rq%d" % ((int(reqs[0][1][2:]) + 1) % 3)
+                reqs = reqs + [(reqs[0][0], rng.choice([reqs[0][1], other, other]))]   # a request id used twice
             for (rid, sobj) in ([] if nosend else reqs):
                 pos = rng.randint(lo, len(q))
                 ok = rng.random() > 0.07
@@ -953,6 +956,13 @@ def base_scenario(role="in", maxv=None, nreq=2, handlers=None, fault=None, fault
             pieces.insert(1 + fault_at, p)
         elif fault == "wrongname":
             pieces[0] = F.mkframe(pickle.dumps(mk_hs(peer + "X", server)))
+        elif fault == "hs-marker":
+            pieces[0] = bytes([0x51]) + pieces[0][1:]
+        elif fault == "hs-oversize":
+            hp = pieces[0][9:]
+            pieces[0] = b"P" + (len(hp) + (1 << (8 * (3 + fault_at % 5)))).to_bytes(8, "little") + hp
+        elif fault == "hs-garbage":
+            pieces[0] = F.mkframe(pieces[0][9:9 + len(pieces[0]) // 2])
         else:
             p, _ = g.fault_piece(fault, peer, server, maxv, ["peerB"], reqs)
             pieces.insert(1 + fault_at, p)
@@ -1004,17 +1014,74 @@ def with_cuts(base, cuts, send_at=0, loss_at=None):
 
 # ---------------------------------------------------------------------------------------------------------
 
+def fixed_corpus():
+    """deterministic scenarios that run first on every seed: every fault kind in both roles (one segment and, for
+    the accepting side, single bytes), frames of exactly limit-1 / limit / limit+1, operations repeated or in an
+    unusual order, peers with equal / related names"""
+    out = []
+    for role in ("in", "out"):
+        for fault in (None,) + FAULTS:
+            if fault == "eof-mid" or (fault == "wrongname" and role == "in"):
+                continue
+            for at in (0, 2):
+                b = base_scenario(role, None, 2, None, fault, at, None)
+                L = len(stream_of(b["conns"][0]))
+                out.append(dict(with_cuts(b, []), fault=fault, mode="whole"))
+                if role == "in" and at == 2:
+                    out.append(dict(with_cuts(b, range(L)), fault=fault, mode="single"))
+                    out.append(dict(with_cuts(b, _frame_offsets(b["conns"][0]["pieces"])), fault=fault, mode="frames"))
+    for delta in (-1, 0, 1):
+        maxv = 2000
+        for what in ("frame", "handshake"):
+            b = base_scenario("in" if what == "frame" else "out", maxv, 1, None, None, 0, None)
+            if what == "frame":
+                mk = lambda k: mk_msg("o", "", ("peerT", "po0"), (R_NAME, "o0"), k, 1)   # noqa: E731
+                k = pad_to(mk, maxv + delta)
+                if k is None:
+                    continue
+                b["conns"][0]["pieces"].insert(2, F.mkframe(pickle.dumps(mk(k))).hex())
+            else:
+                k = pad_to(lambda k: mk_hs("peerT", True, "9" * (k + 1)), maxv + delta)
+                if k is None:
+                    continue
+                b["conns"][0]["pieces"][0] = F.mkframe(pickle.dumps(mk_hs("peerT", True, "9" * (k + 1)))).hex()
+            out.append(dict(with_cuts(b, []), fault=None, mode="whole"))
+            out.append(dict(with_cuts(b, [300, 1200]), fault=None, mode="random"))
+    # the same operation twice / unusual order
+    b = base_scenario("in", None, 2, None, None, 0, None)
+    scn = with_cuts(b, [])
+    extra = [["send", 0, "q", "t0", "rq1", "ro0", 0, True],          # request id used twice, by another object
+             ["hdel", "o2"], ["hdel", "o2"],
+             ["disc", 0], ["disc", 0], ["eof", 0], ["data", 0, 5],
+             ["send", 0, "q", "again", "rq1", "ro0", 0, True],         # to a peer that is gone
+             ["dupconnect", 1], ["badconnect", "$client_1"], ["eof", 1], ["eof", 1]]
+    out.append(dict(scn, steps=scn["steps"] + extra, fault=None, mode="whole"))
+    out.append(dict(scn, steps=scn["steps"][:2] + [["send", 0, "q", "early", "rq0", "ro0", 0, True],
+                                                  ["disc", 0]] + scn["steps"][2:], fault=None, mode="whole"))
+    # equal and related peer names
+    for nm in ("peerT", "peerT2", "peer", "PEERT"):
+        b = base_scenario("in", None, 1, None, "badsrc", 1, None)
+        hb = F.mkframe(pickle.dumps(mk_hs(nm, False)))
+        mb = F.mkframe(pickle.dumps(mk_msg("q", "pb", (nm, "po0"), (R_NAME, "o0"), 0, 1)))
+        b["conns"][1] = {"role": "in", "peer": nm, "pieces": [hb.hex(), mb.hex()]}
+        out.append(dict(with_cuts(b, []), fault="badsrc", mode="whole"))
+    return out
+
+
 class C06(Prop):
     id = "C06"
     lean_modules = ["QmiModel.Props.C06"]
     driver = "drv_c06"
     modelled_not_verified = [
-        "pickle.loads / pickle.dumps (payloads are opaque tokens; the harness tells the model what each payload decodes to)",
-        "TCP as a reliable FIFO byte stream; socket.recv returning 1..n bytes; asyncio calling the reader while the socket is readable "
-        "and containing a callback's exception (fake loop in harness/c06_fakes.py)",
+        "pickle.loads / pickle.dumps (payloads are opaque tokens; the harness tells the model what each payload decodes to and how "
+        "big the pickled error reply for a request is)",
+        "TCP as a reliable FIFO byte stream; socket.recv returning 1..n bytes (the byte counts the code asks for are compared with "
+        "the model's on every run); asyncio calling the reader while the socket is readable and containing a callback's exception "
+        "(fake loop in harness/c06_fakes.py)",
         "_EventDrivenThread (run_in_thread*) replaced by direct calls: the socket-manager code runs single-threaded",
         "the handlers' behaviour (accept / QMI_MessageDeliveryException / other exception) is a parameter of the model",
-        "error replies written back to a peer are assumed to fit MAX_MESSAGE_SIZE",
+        "suppress_version_mismatch_warnings, _SocketManager.close_all / MessageRouter.stop, the UDP responder and the handshake "
+        "timeout are outside this model",
     ]
 
     # -- one batch of scenarios: run on the real code, oracle, then the same op lines through the Lean driver
@@ -1037,8 +1104,23 @@ class C06(Prop):
             res.count("max_" + ("real" if scn["max"] == self.real_max else "reduced"))
             res.count("recv_calls", nrecv)
             res.count("handler_arrivals", len(sx.arrivals))
+            for l, o in zip(sx.lines, sx.outs):
+                if l == "peers":
+                    res.count("accept_refused_by_os")
+                if "exc:duplicate" in o:
+                    res.count("connect_duplicate_refused")
+                if "exc:invalidname" in o:
+                    res.count("connect_invalid_name_refused")
+                if "exc:wrongname" in o:
+                    res.count("connect_wrong_name")
+                toks = o.split(" ")
+                for a, b in zip(toks, toks[1:] + [""]):
+                    if (a.startswith("U:q") or (a.startswith("D:q") and a.endswith(":r"))) and not b.startswith("E:"):
+                        res.count("error_reply_too_big_for_peer")
             for o in sx.outs:
                 for tok in o.split(" "):
+                    if tok == "V":
+                        res.count("version_warning")
                     if tok.startswith("X:"):
                         res.count("closed_" + tok[2:])
                     elif tok == "Z":
@@ -1097,6 +1179,9 @@ class C06(Prop):
         n = ctx.scale(3000, 40000)
         batch = 700
         done = 0
+        corpus = fixed_corpus()
+        self._batch(ctx, corpus, res, sample=False)
+        res.count("fixed_corpus_scenarios", len(corpus))
         while done < n:
             scns = [g.scenario() for _ in range(min(batch, n - done))]
             self._batch(ctx, scns, res, sample=(done == 0))
